@@ -40,6 +40,7 @@ def symbols(cs, bo, term_hex):
     X = "X".encode(codec)
     NUL = "\0".encode(codec)
     if ALPHABET == 1:
+        A = "\n".encode(codec)   # in the corner alphabet the ordinary character is a line feed (a character like any other, byte 0x0A)
         if codec == "utf-8":
             return [A, X, NUL, "\U0001F600".encode(codec), b"\xc0\x80", "\ufeff".encode(codec)], u   # astral char, overlong NUL (invalid), BOM
         if u == 1:
